@@ -154,15 +154,17 @@ CLAIMED["C13"] = dict(
     design_ref="DESIGN.md 4 (C13), 3.2",
     text="Theorems about the item-level INCLUDE model (nest of readers as a stack, file system a function): push-back "
          "goes to the innermost reader and reading again returns the item and the same nest, for every nesting depth; "
-         "the first directory that has the file wins; an unresolvable INCLUDE line is delivered at its position; a "
-         "computed three-level instance of transparency (reading = textual inlining). Tie: the extracted model's "
+         "the first directory that has the file wins; an unresolvable INCLUDE line is delivered at its position; and "
+         "the general splice theorem: for EVERY nest of include files (any depth and number, no file including "
+         "itself) reading through the nest of readers == textual inlining, item by item, from any reader state. Tie: the extracted model's "
          "stream vs the items the real reader delivers on every generated split (real temp files). Search: programs "
          "split into main + up to 3 nested include files, include-path order with decoys, string and file readers, "
          "absent files: same tree / Include_Stmt nodes kept and re-emitted.",
     note="Trusted: Coq kernel; the item-level model coq/Model/Include.v (items opaque) tied to readfortran.py by the "
-         "stream comparison. Partial (named _partial): the general splice theorem is not proved. Hypothesis: included "
-         "files are detected as the parent's source form (one recorded finding when not).",
-    technique="Rocq proof (push-back/first-directory/unresolved-include laws of the include model) + model-vs-reader stream correspondence + include-split search")
+         "stream comparison. Items are opaque: that the statements of an included file are read like those of the parent "
+         "is the reader model's business (C12). Hypothesis: included files are detected as the parent's source form "
+         "(one recorded finding when not).",
+    technique="Rocq proof (general splice theorem: reading == textual inlining, by induction with a weight measure; push-back/first-directory laws) + model-vs-reader stream correspondence + include-split search")
 CLAIMED["C17"] = dict(
     design_ref="DESIGN.md 4 (C17), 3.5",
     text="Theorems: the Gallina model of ParserFactory.create/_setup, run on the class declarations read off the live "
